@@ -85,6 +85,10 @@ def make_inputs(chk, n, seed):
     paths["B2"] = os.path.join(d, "plt00030")      # same mesh, other file assignment: combine goes box by box
     gamma.write_plotfile(paths["B2"], lat.ap("B", ["p", "q"], files_of=lambda lv, b: (b % n) + 1 if (n > 1 and lv == 0) else 1), cfg_,
                          values=lattice.Fields(lat, seed + 1).values)
+    # a thermochemical plotfile on the same mesh (for chef's cantera recipes)
+    from checks import c11
+    paths["T"] = os.path.join(d, "plt00040")
+    gamma.write_plotfile(paths["T"], lat.ap("T", c11.THERMO_FIELDS, files_of=own), cfg_, values=c11.thermo_values(seed))
     lat2 = lattice.Lattice(mesh, x, 4, axes=(0, 1), ndims=2, scale=2)
     paths["P2"] = os.path.join(d, "plt2d")
     gamma.write_plotfile(paths["P2"], lat2.ap("C", ["u", "v"], files_of=own), gamma.Config.draw(rng, ndims=2),
@@ -192,6 +196,16 @@ def drivers():
     def _(p, out, serial):
         from amr_kitchen.chef import Chef
         Chef(p["A"], recipe=RECIPE, outfile=out, serial=serial, kept_fields="v").cook()
+
+    @reg("chef.two-pressures", serial=True)
+    def _(p, out, serial):
+        # a HISTORY in one process: the same plotfile cooked twice with a pressure-dependent recipe at two pressures; what the
+        # first cook leaves behind (module globals, cached worker processes) must not reach the second
+        from amr_kitchen.chef import Chef
+        from checks import c11
+        os.makedirs(out)
+        for name, pres in (("first", 1.5), ("second", 0.8)):
+            Chef(p["T"], recipe="HRR", mech=c11.MECH, pressure=pres, outfile=os.path.join(out, name), serial=serial).cook()
 
     @reg("mandoline.return", serial=True)
     def _(p, out, serial):
@@ -363,7 +377,7 @@ def run(chk, replay):
     ns = [1, 2, 3, 4] if not replay else [replay["scenario"]["n"]]
     for n in ns:
         paths = make_inputs(chk, n, chk.seed * 10 + n)
-        before = {k: alpha.tree_digest(paths[k]) for k in ("A", "B", "B2", "P2", "K")}
+        before = {k: alpha.tree_digest(paths[k]) for k in ("A", "B", "B2", "P2", "K", "T")}
         for name in names:
             fn, has_serial = D[name]
             ref = run_tool(chk, name, fn, paths, {}, default="fifo", log=log)
